@@ -373,6 +373,80 @@ def infos_case(draw, shard, nshards):
     return dict(el=el, form=form)
 
 
+# ------------------------------------------------------------------ walks (history of form changes)
+
+
+@st.composite
+def walk_case(draw, shard, nshards):
+    """Two or three states around different bodies, walked through the forms in an interleaved order."""
+    n = draw(st.integers(2, 3))
+    objs = []
+    for _ in range(n):
+        hyp = draw(st.integers(0, 9)) < 3
+        objs.append(draw(go.elements(elliptic=not hyp, hyperbolic=hyp, bodies=BODIES)))
+    ops = []
+    for _ in range(draw(st.integers(4, 14))):
+        ops.append(dict(op=draw(st.sampled_from(["set", "set", "copy", "infos", "twin"])),
+                        obj=draw(st.integers(0, n - 1)), form=draw(st.integers(0, 9))))
+    return dict(objs=objs, ops=ops)
+
+
+def check_walk(case):
+    from beyond.dates import Date
+    from beyond.orbits import StateVector
+
+    svs, refs, ks, polar = [], [], [], []
+    for el in case["objs"]:
+        mu = mu_of(el["body"])
+        cart = tb.kep2cart(el["a"], el["e"], el["i"], el["raan"], el["argp"], el["nu"], mu)
+        assume(kappa_polar(cart) < 1e6)
+        svs.append(StateVector(cart, Date(2020, 1, 1), "cartesian", frame_for(el["body"])))
+        refs.append(cart)
+        ks.append(kappa(el))
+        polar.append(kappa_polar(cart))
+    steps = [0] * len(svs)
+    worst = 0.0
+    for n, op in enumerate(case["ops"]):
+        i = op["obj"]
+        el = case["objs"][i]
+        forms = HYP_FORMS if el["e"] > 1 else FORMS
+        form = forms[op["form"] % len(forms)]
+        if form in ("spherical", "cylindrical"):
+            ks[i] = max(ks[i], kappa(el) * polar[i])
+        if op["op"] == "set":
+            svs[i].form = form
+            steps[i] += 1
+        elif op["op"] == "copy":
+            svs[i] = svs[i].copy(form=form)
+            steps[i] += 1
+        elif op["op"] == "twin":
+            # a copy in another form, dropped: the original must not follow it
+            svs[i].copy(form=form)
+        else:
+            mu = mu_of(el["body"])
+            got = float(svs[i].infos.energy)
+            want = -mu / (2 * el["a"])
+            if abs(got - want) > (1e-9 * ks[i] + 1e-9) * (steps[i] + 1) * abs(want):
+                raise Violation("walk-infos", f"op {n}: energy {got!r} of object {i} ({svs[i].form.name}), "
+                                f"defining relation gives {want!r}", op=n)
+        # every object, not only the one touched, still is the state it was built from
+        for j, sv in enumerate(svs):
+            if op["op"] in ("set", "copy") and j == i and sv.form.name != form:
+                raise Violation("form-name", f"op {n}: form is {sv.form.name} after {op['op']} to {form}", op=n)
+            dr, dv = cart_err(sv.copy(form="cartesian").base, refs[j])
+            tol = (1e-11 * ks[j] + 1e-10) * (steps[j] + 2)
+            worst = max(worst, max(dr, dv) / tol)
+            if dr > tol or dv > tol:
+                raise Violation("walk", f"after op {n} ({op['op']} object {i} -> {form}) object {j} "
+                                f"({sv.form.name}, body {case['objs'][j]['body']}) is off by dr={dr:.3g} dv={dv:.3g} "
+                                f"(tol {tol:.3g})", op=n, dr=dr, dv=dv)
+    bodies = {el["body"] for el in case["objs"]}
+    cls = [f"objects:{len(svs)}"] + (["mixed-bodies"] if len(bodies) > 1 else [])
+    if any(el["e"] > 1 for el in case["objs"]) and any(el["e"] < 1 for el in case["objs"]):
+        cls.append("ellipse+hyperbola")
+    return dict(nt=max(steps) >= 2, cls=cls, ratio=worst)
+
+
 FACETS = [
     Facet("roundtrip", lambda s, t: rt_case(s, 16), check_roundtrip,
           rule="every case (A != B or via != A)", quick=(16, 1500), thorough=(32, 8000)),
@@ -382,4 +456,7 @@ FACETS = [
     Facet("infos", lambda s, t: infos_case(s, 16), check_infos,
           rule="every case: all Infos quantities vs. their defining relations",
           quick=(8, 600), thorough=(16, 5000)),
+    Facet("walk", lambda s, t: walk_case(s, 16), check_walk,
+          rule="some object changed form at least twice; all objects re-read after every op",
+          quick=(8, 300), thorough=(16, 3000)),
 ]
